@@ -51,4 +51,9 @@ package kernel
 //@   modifies chain.CosiAggregators, chain.CosiVerifiers, m.Snapshot.RoundNumber, m.Snapshot.References, ghost bytes_cachequeue, ghost store_errors, ghost kernel_graph_state
 //@   ensures [deferred-requeues] !result0 && err == nil && StoreErrors(chain.node.persistStore) == old(StoreErrors(chain.node.persistStore)) ==>
 //@       TxsRequeued(chain.node.persistStore, old(m.Snapshot))
+//@   -- the two CoSi maps are either the same objects as before (contents untouched) or the new, empty maps of a round reset
+//@   ensures [maps] chain.CosiAggregators != nil && chain.CosiVerifiers != nil &&
+//@       (chain.CosiAggregators == old(chain.CosiAggregators) || (fresh(chain.CosiAggregators) && (forall k crypto.Hash :: {has(chain.CosiAggregators, k)} !has(chain.CosiAggregators, k)))) &&
+//@       (chain.CosiVerifiers == old(chain.CosiVerifiers) || (fresh(chain.CosiVerifiers) && (forall k crypto.Hash :: {has(chain.CosiVerifiers, k)} !has(chain.CosiVerifiers, k))))
+//@   ensures [errors-grow] StoreErrors(chain.node.persistStore) >= old(StoreErrors(chain.node.persistStore))
 //@   ensures [monotone] forall id mathint :: {QueuedId(chain.node.persistStore, id)} QueuedId(chain.node.persistStore, id) != old(QueuedId(chain.node.persistStore, id)) ==> QueuedId(chain.node.persistStore, id) == 1
